@@ -671,10 +671,181 @@ pub fn run(cfg: &Cfg, rep: &mut Report) {
         done += 1;
     }
     ctx.rep.add("random_cases", done);
+    // two-level expressions over a smaller grid (and random operands)
+    let ints: [i64; 14] = [0, 1, -1, 2, -2, 3, 7, 63, 64, i64::MAX, i64::MIN, i64::MAX - 1, i64::MIN + 1, 1 << 32];
+    let floats: [f64; 12] = [0.0, -0.0, 1.0, -1.0, 1.5, -2.5, 5e-324, f64::MAX, f64::INFINITY, f64::NEG_INFINITY, f64::NAN, 1e-300];
+    let mut cell2 = 0u64;
+    for x in int_compounds() {
+        for a in ints {
+            for b in ints {
+                cell2 += 1;
+                if cfg.owns(cell2) {
+                    ctx.check_int_compound(&x, a, b);
+                }
+            }
+        }
+    }
+    for x in float_compounds() {
+        for a in floats {
+            for b in floats {
+                cell2 += 1;
+                if cfg.owns(cell2) {
+                    ctx.check_float_compound(&x, a, b);
+                }
+            }
+        }
+    }
     ctx.report_rejected_helpers();
 }
 
+/// two-level expressions over the run-time operands `a`, `b` and literal constants: the folding pass sees an operator
+/// applied to the result of another operator (peephole rewrites live here)
+#[derive(Clone, Debug)]
+enum X {
+    A,
+    B,
+    K(i64),
+    Kf(f64),
+    Un(&'static str, Box<X>),
+    Bin(&'static str, Box<X>, Box<X>),
+}
+
+impl X {
+    fn text(&self) -> String {
+        match self {
+            X::A => "a".into(),
+            X::B => "b".into(),
+            X::K(k) => int_lit(*k),
+            X::Kf(k) => float_lit(*k).unwrap_or_else(|| "0.0".into()),
+            X::Un(op, x) => format!("{op}({})", x.text()),
+            X::Bin(op, l, r) => format!("({} {op} {})", l.text(), r.text()),
+        }
+    }
+    fn int(&self, a: i64, b: i64) -> Exp {
+        match self {
+            X::A => Exp::Int(a),
+            X::B => Exp::Int(b),
+            X::K(k) => Exp::Int(*k),
+            X::Kf(_) => unreachable!(),
+            X::Un(op, x) => match x.int(a, b) {
+                Exp::Int(v) => int_unary_oracle(op, v),
+                e => e,
+            },
+            X::Bin(op, l, r) => match (l.int(a, b), r.int(a, b)) {
+                (Exp::Int(x), Exp::Int(y)) => int_oracle(op, x, y),
+                (Exp::Int(_), e) | (e, _) => e,
+            },
+        }
+    }
+    fn float(&self, a: f64, b: f64) -> f64 {
+        match self {
+            X::A => a,
+            X::B => b,
+            X::Kf(k) => *k,
+            X::K(_) => unreachable!(),
+            X::Un(_, x) => -x.float(a, b),
+            X::Bin(op, l, r) => match float_oracle(op, l.float(a, b), r.float(a, b)) {
+                Exp::Float(v) => v,
+                _ => f64::NAN,
+            },
+        }
+    }
+}
+
+fn int_compounds() -> Vec<X> {
+    let (a, b) = (|| Box::new(X::A), || Box::new(X::B));
+    let k = |v: i64| Box::new(X::K(v));
+    let bin = |op: &'static str, l: Box<X>, r: Box<X>| Box::new(X::Bin(op, l, r));
+    let mut out = Vec::new();
+    for op in ["-", "+", "*", "&", "|", "^"] {
+        out.push(X::Un("-", bin(op, a(), b())));
+        out.push(X::Un("!", bin(op, a(), b())));
+        out.push(X::Un("-", bin(op, b(), a())));
+        for c in [0i64, 1, -1, 2, i64::MAX, i64::MIN] {
+            out.push(X::Bin(op, bin(op, a(), k(c)), k(c)));
+            out.push(X::Bin(op, k(c), bin(op, k(c), a())));
+            out.push(X::Bin(op, bin(op, a(), k(c)), b()));
+        }
+    }
+    for (k1, k2) in [(0i64, 0i64), (1, 1), (31, 32), (32, 32), (40, 40), (63, 1), (1, 63), (63, 63), (0, 63), (62, 1), (5, 60)] {
+        for (o1, o2) in [("<<", "<<"), (">>", ">>"), ("<<", ">>"), (">>", "<<")] {
+            out.push(X::Bin(o2, bin(o1, a(), k(k1)), k(k2)));
+        }
+    }
+    for (o1, o2) in [("-", "-"), ("-", "+"), ("+", "-"), ("*", "/"), ("/", "*"), ("*", "%"), ("/", "/"), ("%", "%"), ("**", "**"), ("*", "**"), ("-", "*"), ("&", "|"), ("|", "&"), ("^", "^")] {
+        out.push(X::Bin(o2, bin(o1, a(), b()), a()));
+        out.push(X::Bin(o2, a(), bin(o1, a(), b())));
+        out.push(X::Bin(o2, bin(o1, a(), b()), bin(o1, b(), a())));
+        for c in [0i64, 1, -1, 2, 3] {
+            out.push(X::Bin(o2, bin(o1, a(), k(c)), k(c)));
+            out.push(X::Bin(o2, bin(o1, a(), k(c)), b()));
+        }
+    }
+    out.push(X::Un("-", Box::new(X::Un("-", a()))));
+    out.push(X::Un("!", Box::new(X::Un("!", a()))));
+    out.push(X::Un("-", Box::new(X::Un("!", a()))));
+    // a constant right operand that makes its operator fail whatever the left one is gets reported while parsing
+    out.retain(|x| {
+        let t = x.text();
+        !(t.contains("/ 0)") || t.contains("% 0)") || t.contains("** (-1))"))
+    });
+    out
+}
+
+fn float_compounds() -> Vec<X> {
+    let (a, b) = (|| Box::new(X::A), || Box::new(X::B));
+    let k = |v: f64| Box::new(X::Kf(v));
+    let bin = |op: &'static str, l: Box<X>, r: Box<X>| Box::new(X::Bin(op, l, r));
+    let mut out = Vec::new();
+    for op in ["-", "+", "*", "/"] {
+        out.push(X::Un("-", bin(op, a(), b())));
+        out.push(X::Un("-", bin(op, b(), a())));
+        out.push(X::Un("-", Box::new(X::Un("-", bin(op, a(), b())))));
+        for c in [0.0f64, -0.0, 1.0, -1.0, 2.0, 0.5] {
+            out.push(X::Bin(op, bin(op, a(), k(c)), k(c)));
+            out.push(X::Bin(op, k(c), bin(op, k(c), a())));
+            out.push(X::Un("-", bin(op, a(), k(c))));
+            out.push(X::Un("-", bin(op, k(c), a())));
+        }
+    }
+    for (o1, o2) in [("-", "-"), ("-", "+"), ("+", "-"), ("*", "/"), ("/", "*"), ("/", "/"), ("-", "*"), ("*", "-"), ("+", "+"), ("*", "*")] {
+        out.push(X::Bin(o2, bin(o1, a(), b()), a()));
+        out.push(X::Bin(o2, a(), bin(o1, a(), b())));
+        out.push(X::Bin(o2, bin(o1, a(), b()), bin(o1, b(), a())));
+    }
+    out.push(X::Un("-", Box::new(X::Un("-", a()))));
+    out
+}
+
 impl Ctx<'_> {
+    fn check_int_compound(&mut self, x: &X, a: i64, b: i64) {
+        let text = x.text();
+        let exp = x.int(a, b);
+        self.rep.distinct_case(&("intx", &text, a, b));
+        if let Some(f) = self.funcs.get(&format!("intx {text}"), || format!("(a: int, b: int) -> int {{ return {text} }}")) {
+            let out = call(&f, vec![Variable::Int(a), Variable::Int(b)]);
+            self.rep.evaluations += 1;
+            self.rep.count("form_compound");
+            if let Err(why) = judge(&exp, &out) {
+                self.fail("compound", "int", &truncate(&text, 40), &a.to_string(), &b.to_string(), &format!("{why} [{text}]"));
+            }
+        }
+    }
+
+    fn check_float_compound(&mut self, x: &X, a: f64, b: f64) {
+        let text = x.text();
+        let exp = Exp::Float(x.float(a, b));
+        self.rep.distinct_case(&("floatx", &text, a.to_bits(), b.to_bits()));
+        if let Some(f) = self.funcs.get(&format!("floatx {text}"), || format!("(a: float, b: float) -> float {{ return {text} }}")) {
+            let out = call(&f, vec![Variable::Float(a), Variable::Float(b)]);
+            self.rep.evaluations += 1;
+            self.rep.count("form_compound");
+            if let Err(why) = judge(&exp, &out) {
+                self.fail("compound", "float", &truncate(&text, 40), &format!("{a:?}"), &format!("{b:?}"), &format!("{why} [{text}]"));
+            }
+        }
+    }
+
     fn report_rejected_helpers(&mut self) {
         for (key, text, why) in std::mem::take(&mut self.funcs.rejected) {
             self.rep.violation(
